@@ -5,6 +5,7 @@ TdModel/Mathlib/C13.lean).  Literals below (2..7 and the residue table, 2048, 2^
 are the specification's, not the regenerated names: a changed constant in /repo breaks these proofs.
 -/
 import TdModel.Lemmas.C13
+import TdModel.Mathlib.C13
 
 namespace TdModel.C13
 open TdModel
@@ -53,6 +54,17 @@ theorem checkGP_badG_iff (g p : Int) : checkGP g p = .badG ↔ ¬ (2 ≤ g ∧ g
   rw [gpTable_is_spec]
   exact checkGPWith_badG_iff g p
 
+/-- **The residue table is correct** (Mathlib: quadratic reciprocity and its supplements, the Legendre
+symbol's multiplicativity for 6 = 2·3): for every safe prime `p > 7` — of any size — and `g ∈ 2..7`,
+`CheckGP` accepts exactly when `g` is a quadratic residue modulo `p`, i.e. generates the subgroup of
+prime order `(p−1)/2`. -/
+theorem residue_table_correct (p : Nat) (hp : p.Prime) (hq : ((p - 1) / 2).Prime) (h7 : 7 < p)
+    (g : Nat) (hg : 2 ≤ g ∧ g ≤ 7) :
+    checkGP (g : Int) (p : Int) = .ok ↔ IsSquare ((g : Nat) : ZMod p) := by
+  unfold checkGP
+  rw [gpTable_is_spec]
+  exact table_iff_isSquare p hp hq h7 g hg
+
 /-! ### CheckDH -/
 
 /-- `CheckDH` accepts exactly when `p` has 2048 bits (`2^2047 ≤ |p| < 2^2048`), `CheckGP` accepts,
@@ -74,6 +86,27 @@ example : checkDH (fun _ => true) 4 ((2 : Int) ^ 2047) = .ok := by
   refine ⟨by rw [hn]; exact ⟨Nat.le_refl _, Nat.pow_lt_pow_right (by decide) (by decide)⟩, ?_, rfl, rfl⟩
   rw [checkGP_ok_iff _ _ (Int.le_of_lt (Int.pow_pos (by decide)))]
   exact Or.inr (Or.inr (Or.inl rfl))
+
+/-- **`CheckDH` accepts exactly the specification's inputs**: given a correct primality oracle
+(Go uses 64 Miller–Rabin rounds + Baillie–PSW; exactness of that test is the one assumption), `(g, p)`
+is accepted iff `p` is a 2048-bit safe prime (`2^2047 < p < 2^2048`, `p` and `(p−1)/2` prime) and `g` is
+one of 2..7 and a quadratic residue modulo `p`.  (The code tests `2^2047 ≤ p`; the FIXME in
+check_dh.go is immaterial because `2^2047` is not prime.) -/
+theorem checkDH_accepts_exactly_spec (isPrime : Int → Bool)
+    (horacle : ∀ n : Int, isPrime n = true ↔ (0 ≤ n ∧ n.toNat.Prime)) (g : Int) (p : Nat) :
+    checkDH isPrime g (p : Int) = .ok ↔
+      (2 ^ 2047 < p ∧ p < 2 ^ 2048) ∧ p.Prime ∧ ((p - 1) / 2).Prime ∧ (2 ≤ g ∧ g ≤ 7) ∧
+        IsSquare ((g.toNat : Nat) : ZMod p) :=
+  checkDH_spec_bridge isPrime horacle checkDH_source_shape.2.1 gpTable_is_spec g p
+
+/-- Negative "primes" are refused (a correct oracle says no). -/
+theorem checkDH_negative_refused (isPrime : Int → Bool)
+    (horacle : ∀ n : Int, isPrime n = true ↔ (0 ≤ n ∧ n.toNat.Prime)) (g p : Int) (hp : p < 0) :
+    checkDH isPrime g p ≠ .ok := by
+  intro h
+  have := ((checkDH_iff isPrime g p).mp h).2.2.1
+  have := ((horacle p).mp this).1
+  omega
 
 /-! ### CheckDHParams -/
 
@@ -112,5 +145,20 @@ not claimed.)  For a product of two primes the result is therefore exactly that 
 theorem decompose_sound (n : Nat) (tape : List Nat) (p q : Nat)
     (h : decomposePQ n tape = .ok (p, q)) : p * q = n ∧ 1 < p ∧ p ≤ q :=
   pqLoop_sound pq_constants.2.2.2.2.2 n tape 0 0 p q (Or.inl (by omega)) h
+
+/-- **pq factorisation returns the two prime factors in ascending order**: for `n = p₁·p₂` with
+`p₁ ≤ p₂` primes (of any size, in particular below 2^63), any successful run returns `(p₁, p₂)`. -/
+theorem decompose_semiprime (p1 p2 : Nat) (hp1 : p1.Prime) (hp2 : p2.Prime) (hle : p1 ≤ p2)
+    (tape : List Nat) (p q : Nat) (h : decomposePQ (p1 * p2) tape = .ok (p, q)) : p = p1 ∧ q = p2 := by
+  obtain ⟨hmul, hgt, hpq⟩ := decompose_sound _ tape p q h
+  exact semiprime_factors p1 p2 p q hp1 hp2 hle hmul hgt hpq
+
+/-- Non-vacuity: the model factors 15 with the two-word tape `[1, 1]` (v = 3, x = 2, x' = 7,
+gcd(7 − 2, 15) = 5, result swapped into ascending order). -/
+example : decomposePQ 15 [1, 1] = .ok (3, 5) := by
+  have hm : mulAddLoop 15 2 2 3 = 7 := by
+    rw [mulAddLoop]; simp only [addMod]; rw [mulAddLoop]; simp only [addMod]; rw [mulAddLoop]; simp
+  simp [decomposePQ, pqLoop, rhoInner, hm, subMod, pqFinish, Facts.C13.pqValue1, Facts.C13.pqMask,
+    Facts.C13.pqAdd, Facts.C13.pqRndBits, Facts.C13.pqLimShift]
 
 end TdModel.C13
